@@ -90,6 +90,10 @@ class Contract:
     self.stop_after = list(g("stop_after", []))
     # declared types of local variables whose initial value does not determine it ([None] * n, [], {})
     self.var_types = dict(g("var_types", {}))
+    # congruence ("ring") mode: every `e % <congruence_mod>` in the CODE is replaced by e (the reduction is a ring
+    # homomorphism, so integer identities proved for the unreduced program hold as congruences for the real one);
+    # comparisons whose operands went through such a dropped reduction are arbitrary booleans
+    self.congruence_mod = g("congruence_mod", None)
     self.pure_fn = g("pure_fn", None)
     # functional contracts: the result as an expression of the parameters (used where no fresh symbol may be
     # introduced: inside comprehensions over symbolic sequences and quantifier bodies)
